@@ -19,7 +19,7 @@ import traceback
 
 sys.path.insert(0, __file__.rsplit("/", 1)[0])
 import vclock
-from vclock import to_ticks
+from vclock import to_hint, to_ticks
 
 CLOCK = vclock.install()
 
@@ -239,7 +239,7 @@ class World:
         k = ErrorClass[klass]
         if ra is None and (att + self.variant.get("bare", 0)) % 2 == 0:
             return k
-        return Classification(klass=k, retry_after_s=None if ra is None else ra * vclock.TICK)
+        return Classification(klass=k, retry_after_s=None if ra is None else float(ra) if isinstance(ra, str) else ra * vclock.TICK)
 
     def classifier(self, exc):
         self.release_hung()
@@ -283,7 +283,7 @@ class World:
 
     def strategy_ctx(self, sid, ctx):
         self.trace.append(["ST", sid, False, ctx.attempt, ctx.klass.name,
-                           to_ticks(ctx.classification.retry_after_s), to_ticks(ctx.prev_sleep_s),
+                           to_hint(ctx.classification.retry_after_s), to_ticks(ctx.prev_sleep_s),
                            to_ticks(ctx.remaining_s), ctx.cause])
         return self.strat_value(ctx.attempt)
 
@@ -383,7 +383,7 @@ class World:
         sleep_s = f.pop("sleep_s", "missing")
         ra = f.pop("retry_after_s", None)
         self.trace.append(["L", event, attempt, to_ticks(sleep_s) if sleep_s != "missing" else "missing",
-                           self.canon_tags(f), to_ticks(ra)])
+                           self.canon_tags(f), to_hint(ra)])
         if nth(self.env["log_raises"], idx, False):
             raise KeyError("log hook failure")
 
